@@ -1246,7 +1246,8 @@ func (rl *Shell) abort() {
 	rl.selection.Reset()
 
 	// Cancel active completion insertion and/or incremental search.
-	if rl.completer.AutoCompleting() || rl.completer.IsInserting() {
+	// (a menu can be open with no candidate inserted yet: the interrupt closes it as well)
+	if rl.completer.AutoCompleting() || rl.completer.IsInserting() || rl.Keymap.Local() == keymap.MenuSelect {
 		rl.Hint.Reset()
 		rl.completer.ResetForce()
 
